@@ -1,3 +1,289 @@
-"""_types formatting / summary functions under contract (C18, C19)."""
-from .common import *  # noqa
-UNITS = []
+"""_types summary functions under contract (C19).  Generators are verified as producers: the ghost output of one loop iteration is
+a list of segments — ('one', x) for `yield x`, ('all', seq) for `yield from seq` — and each callee is an abstract sequence /
+summary object given by an uninterpreted function of its arguments, so that "the summary is the structural projection"
+becomes a per-iteration step clause (order = iteration order)."""
+from .extract_env import *  # noqa
+import ast
+
+TY = "stackscope._types."
+for c_ in ("FrameSummary", "StackSummary"):
+    register_class(c_)
+
+fs_plain = Function("as_stdlib_summary", Val, Val, Val)                           # (frame, capture_locals) -> FrameSummary
+fs_ctx = Function("as_stdlib_summary_with_contexts", Val, Val, Val, Val)          # (frame, show_hidden, capture_locals) -> sequence
+ctx_summ = Function("Context._frame_summaries", Val, Val, Val, Val, Val, Val)     # (ctx, parent, show_hidden, capture_locals, override) -> seq
+stk_summ = Function("Stack._frame_summaries", Val, Val, Val, Val, Val)            # (stack, show_contexts, show_hidden, capture_locals) -> seq
+filename_of = Function("Frame.filename", Val, Val)
+funcname_of = Function("Frame.funcname", Val, Val)
+name_and_type = Function("Context._name_and_type", Val, Val)
+
+
+def seq_sv(t):
+    return SV(t, ty="list")
+
+
+def segs(p):
+    out = []
+    for y in p.yielded:
+        out.append(("all", y.get("all_of")[0].t) if y.get("all_of") is not None else ("one", y.t))
+    return out
+
+
+def m_frame_plain(ex, p, args, kwargs, node):
+    if set(kwargs) != {"capture_locals"} or len(args) != 1:
+        raise Unsupported("as_stdlib_summary call shape")
+    return [("ok", p, SV(fs_plain(args[0].t, kwargs["capture_locals"].t), ty="FrameSummary"))]
+
+
+def m_frame_ctx(ex, p, args, kwargs, node):
+    if set(kwargs) != {"show_hidden_frames", "capture_locals"} or len(args) != 1:
+        raise Unsupported("as_stdlib_summary_with_contexts call shape")
+    return [("ok", p, seq_sv(fs_ctx(args[0].t, kwargs["show_hidden_frames"].t, kwargs["capture_locals"].t)))]
+
+
+def m_ctx_summ(ex, p, args, kwargs, node):
+    a = list(args) + [None] * (5 - len(args))
+    for k_, i in (("parent", 1), ("show_hidden_frames", 2), ("capture_locals", 3), ("override_line", 4)):
+        if k_ in kwargs:
+            a[i] = kwargs[k_]
+    if a[4] is None:
+        a[4] = NONE_SV
+    if any(x is None for x in a):
+        raise Unsupported("Context._frame_summaries call shape")
+    return [("ok", p, seq_sv(ctx_summ(*[x.t for x in a])))]
+
+
+def m_stk_summ(ex, p, args, kwargs, node):
+    a = list(args) + [None] * (4 - len(args))
+    for k_, i in (("show_contexts", 1), ("show_hidden_frames", 2), ("capture_locals", 3)):
+        if k_ in kwargs:
+            a[i] = kwargs[k_]
+    if any(x is None for x in a):
+        raise Unsupported("Stack._frame_summaries call shape")
+    return [("ok", p, seq_sv(stk_summ(*[x.t for x in a])))]
+
+
+def ctor_frame_summary(ex, p, args, kwargs, node):
+    fs = p.new_obj("FrameSummary", filename=args[0].t, lineno=args[1].t, name=args[2].t,
+                   locals=kwargs["locals"].t if "locals" in kwargs else NONE, line=kwargs["line"].t if "line" in kwargs else NONE)
+    p.ghost["summaries"] = p.ghost.get("summaries", ()) + (fs,)
+    # C19.no_frame: only str / int / None / dict[str, str] go into a FrameSummary (sort check on the arguments)
+    ex.oblig("C19.no_frame.summary_arguments_hold_no_frame", "clause", p,
+             And(Not(is_kind(args[0].t, ["frame", "Frame"])), Not(is_kind(args[2].t, ["frame", "Frame"])),
+                 Not(is_kind(args[1].t, ["frame", "Frame"]))))
+    return [("ok", p, SV(fs, ty="FrameSummary"))]
+
+
+METHODS = {**STD_METHODS, ("Frame", "as_stdlib_summary"): m_frame_plain, ("Frame", "as_stdlib_summary_with_contexts"): m_frame_ctx,
+           ("Context", "_frame_summaries"): m_ctx_summ, ("Stack", "_frame_summaries"): m_stk_summ,
+           ("Context", "_name_and_type"): lambda ex, p, a, k, n: [("ok", p, SV(name_and_type(a[0].t), ty="str"))]}
+def str_prop(fn):
+    def prop(ex, p, o):
+        v = fn(o.t)
+        p.pc.append(is_exact_kind(v, "str"))
+        return [("ok", p, SV(v, ty="str"))]
+    return prop
+
+
+PROPS = {("Frame", "filename"): str_prop(filename_of), ("Frame", "funcname"): str_prop(funcname_of)}
+COMMON = dict(bindings=dict(EXTRACT_BINDINGS, **{"traceback.FrameSummary": ctor_frame_summary}), methods=METHODS, props=PROPS,
+              known_classes=KNOWN, options=dict(iter_any_seq=True),
+              field_types={"frames": "list", "contexts": "list", "children": "list", "inner_stack": "Stack"},
+              elem_types={"frames": "Frame", "contexts": "Context"})
+
+
+def typed_seq(p, obj, field, elem_kind):
+    s_ = sym_seq(p, f"{field}_seq", "list")
+    p.setf(obj.t, field, s_.t)
+    H0 = p.snap()
+    p.add_schema(s_.t, lambda pth, j: Implies(And(j >= H0.lo_(s_.t), j < H0.hi_(s_.t)),
+                                              And(Val.is_ref(H0.raw(s_.t, j)), Val.a(H0.raw(s_.t, j)) >= 0,
+                                                  *( [is_kind(H0.raw(s_.t, j), elem_kind), Val.is_boolv(H0.getf(H0.raw(s_.t, j), "hide"))] if elem_kind else []))))
+    return s_
+
+
+# ------------------------------------------------------------------------------------------------ Stack._frame_summaries
+def ss_setup(ex, p):
+    self = sym_ref(p, "self", "Stack")
+    fr = typed_seq(p, self, "frames", "Frame")
+    sc, sh, cl = sym_bool(p, "show_contexts"), sym_bool(p, "show_hidden_frames"), sym_bool(p, "capture_locals")
+    p.env.update(self=self, show_contexts=sc, show_hidden_frames=sh, capture_locals=cl)
+    return dict(self=self, frames=fr, sc=sc, sh=sh, cl=cl)
+
+
+def ss_step(ctx):
+    a = ctx.ex.unit_args
+    f = ctx.v("frame")
+    out = segs(ctx.p)
+    hidden = And(Val.b(ctx.H.getf(f, "hide")), Not(Val.b(a["sh"].t)))
+    if not out:
+        return hidden
+    if len(out) != 1:
+        return BoolVal(False)
+    kind_, t = out[0]
+    if kind_ == "all":
+        return And(Not(hidden), Val.b(a["sc"].t), t == fs_ctx(f, a["sh"].t, a["cl"].t))
+    return And(Not(hidden), Not(Val.b(a["sc"].t)), t == fs_plain(f, a["cl"].t))
+
+
+def mk_unit(name, func, setup, inv_name, step, post=(), extra_inv=None, **kw):
+    def setup2(ex, p):
+        a = setup(ex, p)
+        ex.unit_args = a
+        return a
+    def ghost_havoc(ctx):
+        ctx.p.yielded = []
+    inv = Inv(inv_name, qf=(extra_inv or (lambda ctx: BoolVal(True))), ghost_havoc=ghost_havoc, steps=[(inv_name + ".iteration", step)])
+    return Unit(name, func, setup2, post=list(post), invariants={(func, "for#1"): inv}, allowed_raise=lambda ctx: BoolVal(False), **{**COMMON, **kw})
+
+
+SS_UNIT = mk_unit("C19.Stack._frame_summaries", TY + "Stack._frame_summaries", ss_setup, "C19.stack_summaries", ss_step)
+
+
+# ------------------------------------------------------------------------------------------------ Frame.as_stdlib_summary_with_contexts
+def fc_setup(ex, p):
+    self = sym_ref(p, "self", "Frame")
+    cs = typed_seq(p, self, "contexts", "Context")
+    H0 = p.snap()
+    p.add_schema(cs.t, lambda pth, j: Implies(And(j >= H0.lo_(cs.t), j < H0.hi_(cs.t)), Val.is_boolv(H0.getf(H0.raw(cs.t, j), "is_exiting"))))
+    sh, cl = sym_bool(p, "show_hidden_frames"), sym_bool(p, "capture_locals")
+    p.env.update(self=self, show_hidden_frames=sh, capture_locals=cl)
+    return dict(self=self, contexts=cs, sh=sh, cl=cl)
+
+
+def fc_step(ctx):
+    a = ctx.ex.unit_args
+    out = segs(ctx.p)
+    if len(out) != 1 or out[0][0] != "all":
+        return BoolVal(False)
+    return out[0][1] == ctx_summ(ctx.v("context"), a["self"].t, a["sh"].t, a["cl"].t, NONE)
+
+
+def fc_post(ctx):
+    a = ctx.args
+    cs = a["contexts"].t
+    H0 = ctx.H0
+    n = H0.length(cs)
+    last_exiting = And(n > 0, Val.b(H0.getf(H0.at(cs, n - 1), "is_exiting")))
+    out = segs(ctx.p)            # what was yielded after the loop
+    if not out:
+        return last_exiting
+    if len(out) != 1 or out[0][0] != "one":
+        return BoolVal(False)
+    # the frame's own entry is omitted only when its last context is exiting
+    return And(Not(last_exiting), out[0][1] == fs_plain(a["self"].t, a["cl"].t))
+
+
+FC_UNIT = mk_unit("C19.Frame.as_stdlib_summary_with_contexts", TY + "Frame.as_stdlib_summary_with_contexts", fc_setup,
+                  "C19.frame_context_summaries", fc_step, post=[Clause("C19.own_entry_unless_last_context_exiting", fc_post, on=("return", "normal"))])
+
+
+# ------------------------------------------------------------------------------------------------ Frame.as_stdlib_summary
+def fp_setup(ex, p):
+    self = sym_ref(p, "self", "Frame")
+    pf = sym_ref(p, "pyframe", "frame")
+    loc = sym_ref(p, "f_locals", "dict")
+    p.setf(self.t, "pyframe", pf.t)
+    p.setf(pf.t, "f_locals", loc.t)
+    cl = sym_bool(p, "capture_locals")
+    p.pc.append(Val.is_intv(p.getf(self.t, "lineno")))          # annotated `lineno: int`
+    p.env.update(self=self, capture_locals=cl)
+    return dict(self=self, cl=cl)
+
+
+def fp_post(ctx):
+    a = ctx.args
+    r = ctx.result.t
+    H = ctx.H
+    return And(is_kind(r, "FrameSummary"), H.getf(r, "filename") == filename_of(a["self"].t), H.getf(r, "lineno") == ctx.H0.getf(a["self"].t, "lineno"),
+               H.getf(r, "name") == funcname_of(a["self"].t), Val.is_none(H.getf(r, "locals")) == Not(Val.b(a["cl"].t)))
+
+
+def dict_items_iter(ex, p, args, kwargs, node):
+    return [("ok", p, SV(p.new_seq("list", length=fresh_int("n"), arr=fresh("it", AV)), ty="list"))]
+
+
+FP_UNIT = Unit("C19.Frame.as_stdlib_summary", TY + "Frame.as_stdlib_summary", fp_setup, post=[Clause("C19.frame_entry_fields", fp_post)],
+               allowed_raise=lambda ctx: BoolVal(False),
+               **{**COMMON, "methods": {**METHODS, ("dict", "items"): dict_items_iter}, "field_types": {"f_locals": "dict", "pyframe": "frame"}})
+
+
+# ------------------------------------------------------------------------------------------------ Context._frame_summaries
+def cs_setup(ex, p):
+    self = sym_ref(p, "self", "Context")
+    parent = sym_ref(p, "parent", "Frame")
+    ch = typed_seq(p, self, "children", None)
+    p.pc += [Val.is_boolv(p.getf(self.t, "hide")), Or(Val.is_none(p.getf(self.t, "inner_stack")), is_kind(p.getf(self.t, "inner_stack"), "Stack")),
+             Or(Val.is_none(p.getf(self.t, "start_line")), And(Val.is_intv(p.getf(self.t, "start_line")), Val.i(p.getf(self.t, "start_line")) > 0)),
+             Val.is_intv(p.getf(parent.t, "lineno"))]
+    sh, cl = sym_bool(p, "show_hidden_frames"), sym_bool(p, "capture_locals")
+    ov = sym_any(p, "override_line")
+    p.env.update(self=self, parent=parent, show_hidden_frames=sh, capture_locals=cl, override_line=ov)
+    p.ghost["pre_loop_segs"] = None
+    return dict(self=self, parent=parent, children=ch, sh=sh, cl=cl, ov=ov)
+
+
+def cs_step(ctx):
+    a = ctx.ex.unit_args
+    sub = ctx.v("subctx")
+    out = segs(ctx.p)
+    is_ctx = is_kind(sub, "Context")
+    if not out:
+        return Not(is_ctx)             # child task stacks are skipped
+    if len(out) != 1 or out[0][0] != "all":
+        return BoolVal(False)
+    t = out[0][1]
+    # the child's own summaries, with the SAME parent and flags (in this order) and a "# ..." override line
+    g = ctx_summ(sub, a["parent"].t, a["sh"].t, a["cl"].t, fresh("ov_any"))
+    return And(is_ctx, z3.Exists([ov_var], t == ctx_summ(sub, a["parent"].t, a["sh"].t, a["cl"].t, ov_var)))
+
+
+ov_var = z3.Const("ov_bound", Val)
+
+
+def cs_inv_setup(ctx):
+    ctx.p.ghost["pre_loop_segs"] = (segs(ctx.p), list(ctx.p.ghost.get("summaries", ())))
+
+
+def cs_post(ctx):
+    a = ctx.args
+    H0, H = ctx.H0, ctx.H
+    self, parent = a["self"].t, a["parent"].t
+    hidden = And(Val.b(H0.getf(self, "hide")), Not(Val.b(a["sh"].t)))
+    pre = ctx.p.ghost.get("pre_loop_segs")
+    if pre is None:
+        return And(hidden, BoolVal(not segs(ctx.p)))              # hidden: nothing at all
+    out, summaries = pre
+    if not out or out[0][0] != "one" or not summaries:
+        return BoolVal(False)
+    fs = summaries[0]
+    sl = H0.getf(self, "start_line")
+    inner = H0.getf(self, "inner_stack")
+    conj = [Not(hidden), out[0][1] == fs, H.getf(fs, "filename") == filename_of(parent),
+            H.getf(fs, "lineno") == If(Val.is_none(sl), H0.getf(parent, "lineno"), sl),
+            Val.is_none(H.getf(fs, "locals")) == Not(Val.b(a["cl"].t))]
+    if len(out) == 1:
+        conj.append(Val.is_none(inner))
+    elif len(out) == 2 and out[1][0] == "all":
+        # the inner stack is summarised WITH contexts, same hidden/locals flags
+        conj += [Not(Val.is_none(inner)), out[1][1] == stk_summ(inner, mkbool(True), a["sh"].t, a["cl"].t)]
+    else:
+        return BoolVal(False)
+    return And(conj)
+
+
+def cs_unit():
+    def setup2(ex, p):
+        a = cs_setup(ex, p)
+        ex.unit_args = a
+        return a
+    def ghost_havoc(ctx):
+        ctx.p.ghost["pre_loop_segs"] = (segs(ctx.p), list(ctx.p.ghost.get("summaries", ())))
+        ctx.p.yielded = []
+    func = TY + "Context._frame_summaries"
+    inv = Inv("C19.child_context_summaries", qf=lambda ctx: BoolVal(True), ghost_havoc=ghost_havoc, steps=[("C19.child_context_summaries.iteration", cs_step)])
+    return Unit("C19.Context._frame_summaries", func, setup2, post=[Clause("C19.context_entry_then_inner_stack", cs_post, on=("return", "normal"))],
+                invariants={(func, "for#1"): inv}, allowed_raise=lambda ctx: BoolVal(False), **COMMON)
+
+
+UNITS = [SS_UNIT, FC_UNIT, FP_UNIT, cs_unit()]
